@@ -3127,7 +3127,14 @@ public:
     {
         if(is_constant_evaluated())
         {
-            return string_length(data());
+            // cannot use `string_length()` here: the array is not required to
+            // be null-terminated so the search has to stop at `size()`
+            std::size_t length{};
+            for(; (length != size()) && (data()[length] != '\0'); length++)
+            {
+            }
+
+            return length;
         }
         else
         {
